@@ -586,6 +586,13 @@ struct Run {
 		std::string line = fmt("merge %d %d %s", a, b, fstr(p.kind, p.k).c_str());
 		++opNo;
 		std::vector<KI> all = ref[a]; all.insert(all.end(), ref[b].begin(), ref[b].end());
+		{	// which path MergeTo(TreeSet&) will take (coverage only)
+			const char* path = ref[a].empty() ? "srcEmpty" : ref[b].empty() ? "dstEmpty"
+				: (Cf::multi ? ref[a].back().first <= ref[b].front().first : ref[a].back().first < ref[b].front().first) ? "fastBefore"
+				: (Cf::multi ? ref[b].back().first <= ref[a].front().first : ref[b].back().first < ref[a].front().first) ? "fastAfter" : "interleaved";
+			c.stats.count(std::string("merge.") + (std::is_empty<typename Cf::Traits>::value ? path : "statefulTraits"));
+			if (p.kind != K_NONE) c.stats.count(std::string("merge.faulted.") + (std::is_empty<typename Cf::Traits>::value ? path : "statefulTraits"));
+		}
 		bool threw = guarded(p.kind, p.k, [&] { mergeTo(slots[a], slots[b]); });
 		s.op(line);
 		s.res(fmt("t=%d n=%zu %zu", threw ? 1 : 0, slots[a].GetCount(), slots[b].GetCount()));
@@ -678,30 +685,30 @@ int main(int argc, char** argv)
 {
 	Ctx c = parseArgs(argc, argv);
 #if TF_PART == 0 || TF_PART == 1
-	runCfg<SetCf<KT, momo::TreeNode<1, 1, P1, true>, true, false, true, true>>(c, "tf_set_triv_c1", 1, true, 10, 260);
-	runCfg<SetCf<KM, momo::TreeNode<2, 1, P1, true>, false, false, true, true>>(c, "tf_set_nm_c2", 2, true, 16, 300);
-	runCfg<SetCf<KM, momo::TreeNode<4, 1, P1, true>, true, true, true, true>>(c, "tf_multiset_nm_c4", 3, true, 30, 260);
+	runCfg<SetCf<KT, momo::TreeNode<1, 1, P1, true>, true, false, true, true>>(c, "tf_set_triv_c1", 1, true, 10, 780);
+	runCfg<SetCf<KM, momo::TreeNode<2, 1, P1, true>, false, false, true, true>>(c, "tf_set_nm_c2", 2, true, 16, 900);
+	runCfg<SetCf<KM, momo::TreeNode<4, 1, P1, true>, true, true, true, true>>(c, "tf_multiset_nm_c4", 3, true, 30, 780);
 #endif
 #if TF_PART == 0 || TF_PART == 2
-	runCfg<SetCf<KC, momo::TreeNode<2, 1, P1, true>, true, false, false, false>>(c, "tf_set_co_c2", 4, true, 16, 300);
-	runCfg<SetCf<KC, momo::TreeNode<1, 1, P1, true>, true, false, false, false>>(c, "tf_set_co_c1", 5, true, 12, 260);
-	runCfg<SetCf<KC, momo::TreeNode<3, 1, P1, true>, false, true, false, false>>(c, "tf_multiset_co_c3", 6, true, 24, 260);
+	runCfg<SetCf<KC, momo::TreeNode<2, 1, P1, true>, true, false, false, false>>(c, "tf_set_co_c2", 4, true, 16, 900);
+	runCfg<SetCf<KC, momo::TreeNode<1, 1, P1, true>, true, false, false, false>>(c, "tf_set_co_c1", 5, true, 12, 780);
+	runCfg<SetCf<KC, momo::TreeNode<3, 1, P1, true>, false, true, false, false>>(c, "tf_multiset_co_c3", 6, true, 24, 780);
 #endif
 #if TF_PART == 0 || TF_PART == 3
-	runCfg<SetCf<KA, momo::TreeNode<4, 2, P1, true>, true, false, false, true>>(c, "tf_set_ca_c4", 7, true, 30, 260);
-	runCfg<SetCf<KM, momo::TreeNode<32, 4, P1, true>, false, false, true, true>>(c, "tf_set_nm_c32", 8, true, 120, 200);
-	runCfg<SetCf<KM, momo::TreeNode<>, true, false, true, true>>(c, "tf_set_nm_default", 9, false, 110, 200);
-	runCfg<SetCf<KC, momo::TreeNode<>, false, true, false, false>>(c, "tf_multiset_co_default", 10, false, 110, 200);
+	runCfg<SetCf<KA, momo::TreeNode<4, 2, P1, true>, true, false, false, true>>(c, "tf_set_ca_c4", 7, true, 30, 780);
+	runCfg<SetCf<KM, momo::TreeNode<32, 4, P1, true>, false, false, true, true>>(c, "tf_set_nm_c32", 8, true, 120, 600);
+	runCfg<SetCf<KM, momo::TreeNode<>, true, false, true, true>>(c, "tf_set_nm_default", 9, false, 110, 600);
+	runCfg<SetCf<KC, momo::TreeNode<>, false, true, false, false>>(c, "tf_multiset_co_default", 10, false, 110, 600);
 #endif
 #if TF_PART == 0 || TF_PART == 4
-	runCfg<MapCf<IK, VM, momo::TreeNode<3, 1, P1, true>, true, false, true, true, false>>(c, "tf_map_nm_c3", 11, true, 24, 260);
-	runCfg<MapCf<IK, VC, momo::TreeNode<2, 1, P1, true>, false, false, false, false, false>>(c, "tf_map_co_c2", 12, true, 16, 300);
-	runCfg<MapCf<IK, VC, momo::TreeNode<4, 1, P1, true>, true, true, false, false, false>>(c, "tf_multimap_co_c4", 13, true, 30, 260);
+	runCfg<MapCf<IK, VM, momo::TreeNode<3, 1, P1, true>, true, false, true, true, false>>(c, "tf_map_nm_c3", 11, true, 24, 780);
+	runCfg<MapCf<IK, VC, momo::TreeNode<2, 1, P1, true>, false, false, false, false, false>>(c, "tf_map_co_c2", 12, true, 16, 900);
+	runCfg<MapCf<IK, VC, momo::TreeNode<4, 1, P1, true>, true, true, false, false, false>>(c, "tf_multimap_co_c4", 13, true, 30, 780);
 #endif
 #if TF_PART == 0 || TF_PART == 5
-	runCfg<MapCf<KU, VC, momo::TreeNode<2, 1, P1, true>, true, false, false, false, true>>(c, "tf_map_unsafe_c2", 14, true, 16, 300);
-	runCfg<SetCfStd<KM, momo::TreeNode<3, 1, P1, true>, false, true, true>>(c, "tf_set_nm_c3_stdtraits", 15, true, 24, 260);
-	runCfg<SetCfStd<KC, momo::TreeNode<2, 2, P1, true>, true, false, false>>(c, "tf_multiset_co_c2_stdtraits", 16, true, 16, 260);
+	runCfg<MapCf<KU, VC, momo::TreeNode<2, 1, P1, true>, true, false, false, false, true>>(c, "tf_map_unsafe_c2", 14, true, 16, 900);
+	runCfg<SetCfStd<KM, momo::TreeNode<3, 1, P1, true>, false, true, true>>(c, "tf_set_nm_c3_stdtraits", 15, true, 24, 780);
+	runCfg<SetCfStd<KC, momo::TreeNode<2, 2, P1, true>, true, false, false>>(c, "tf_multiset_co_c2_stdtraits", 16, true, 16, 780);
 #endif
 	return c.finish();
 }
